@@ -34,6 +34,7 @@ theorem formatArg_str (c : ClsDesc) (s : Str) (l o : Nat) :
     · split <;> rfl
     · rfl
     · rfl
+    · rfl
 
 /-- one inline argument: emitted as `UPPER(word) content` where content is the argument, stripped when
     the class strips, and then reformatted by `format_arg` -/
